@@ -800,3 +800,94 @@ def circle_band(radius: float, ndiv: int):
     c = math.cos(theta / 2)
     mid = radius * (c + 1 / c) / 2
     return min(radius, mid), max(radius, mid)
+
+
+# ----------------------------------------------------------------------------------
+# exact subset decision for polygonal regions (C03)
+# ----------------------------------------------------------------------------------
+
+
+def _cut_pieces(curve, others):
+    """pieces of the polygonal `curve` cut at every contact with the polygonal curves in
+    `others`; returns list of (a, b) straight pieces"""
+    pieces = []
+    for seg in curve:
+        a0, a1 = seg
+        params = {Fr(0), Fr(1)}
+        for other in others:
+            for oseg in other:
+                b0, b1 = oseg
+                res = seg_seg(a0, a1, b0, b1)
+                if res[0] in ("proper", "touch"):
+                    params.add(res[1])
+                elif res[0] == "overlap":
+                    # end points of the other edge projected on this one
+                    ax = 0 if abs(a1[0] - a0[0]) >= abs(a1[1] - a0[1]) else 1
+                    for q in (b0, b1):
+                        t = (q[ax] - a0[ax]) / (a1[ax] - a0[ax])
+                        if 0 < t < 1:
+                            params.add(t)
+        srt = sorted(params)
+        for t0, t1 in zip(srt[:-1], srt[1:]):
+            pieces.append((evaluate(seg, t0), evaluate(seg, t1)))
+    return pieces
+
+
+def _locate(region, p):
+    """'in' | 'out' | 'on' for a polygonal region (exact)"""
+    for c in region_curves(region):
+        for seg in c:
+            if point_on_line_segment(seg[0], seg[1], p):
+                return "on"
+    return "in" if region_contains(region, p, 0) else "out"
+
+
+def _edge_direction_at(region, p):
+    """direction vector of the boundary edge of the region that contains p (p on boundary)"""
+    for c in region_curves(region):
+        for seg in c:
+            if point_on_line_segment(seg[0], seg[1], p) and p != seg[0] and p != seg[1]:
+                return (seg[1][0] - seg[0][0], seg[1][1] - seg[0][1])
+    return None
+
+
+def polygon_region_subset(rb, ra) -> bool:
+    """Exact decision of  B subset of closure(A)  for regions with straight boundaries."""
+    if rb[0] == "empty" or ra[0] == "whole":
+        return True
+    if rb[0] == "whole":
+        return False
+    if ra[0] == "empty":
+        return False
+    ca, cb = region_curves(ra), region_curves(rb)
+    for curve in cb:
+        for a, b in _cut_pieces(curve, ca):
+            mid = ((a[0] + b[0]) / 2, (a[1] + b[1]) / 2)
+            where = _locate(ra, mid)
+            if where == "out":
+                return False
+            if where == "on":
+                d = _edge_direction_at(ra, mid)
+                if d is not None and d[0] * (b[0] - a[0]) + d[1] * (b[1] - a[1]) < 0:
+                    return False  # shared piece traversed in opposite directions
+    for curve in ca:
+        for a, b in _cut_pieces(curve, cb):
+            mid = ((a[0] + b[0]) / 2, (a[1] + b[1]) / 2)
+            if _locate(rb, mid) == "in":
+                return False
+    return True
+
+
+def polygon_curve_in_region(curve, ra, closed=True) -> bool:
+    """every point of the polygonal closed curve lies in A (closed) / in the interior (open)"""
+    if ra[0] == "whole":
+        return True
+    if ra[0] == "empty":
+        return False
+    ca = region_curves(ra)
+    for a, b in _cut_pieces(curve, ca):
+        for p in (a, ((a[0] + b[0]) / 2, (a[1] + b[1]) / 2)):
+            where = _locate(ra, p)
+            if where == "out" or (where == "on" and not closed):
+                return False
+    return True
